@@ -54,6 +54,41 @@ def rx_escape(ch):
 
 
 
+def print_context_free(P, res, rule="PRINT-CONTEXT-FREE"):
+    """what a display arm writes around a child must not depend on the child's *printed text*: a branch on
+    `child_text.starts_with(..)` / `ends_with` / `contains` / `== ".."` makes two different values print alike
+    (`Some((1, 2))` and a two-argument variant), so the text no longer reads back as the value."""
+    from .. import dflow as D
+    fns = [(q, c) for q, c in P.funcs.items() if q.startswith("values::") and ("display" in q.split("::")[-1] or "display" in q)]
+    n = 0
+    PRED = ("::starts_with", "::ends_with", "::contains", "::find", "::rfind", "PartialEq for str>::eq", "PartialEq<str> for std::string::String>::eq",
+            "::strip_prefix", "::strip_suffix", "::is_empty", "::len")
+    for q, g in sorted(fns):
+        shown = set()      # locals holding the printed text of a child
+        for bi, t in g.calls():
+            nm = M.callee_name(t) or ""
+            if nm.startswith("values::") and "display" in nm.split("::")[-1] and "String" in g.local_ty(t["dest"]["l"]):
+                shown.add(t["dest"]["l"])
+        if not shown:
+            continue
+        n += 1
+        for sw in D.bool_switches(g):
+            r = sw["root"]
+            if r[0] != "call" or not (M.callee_name(r[2]) or "").endswith(PRED) or not r[2]["args"]:
+                continue
+            rr = g.root_of(r[2]["args"][0], through_named=True)
+            for _ in range(3):
+                if rr[0] == "call" and (M.callee_name(rr[2]) or "").endswith(("::deref", "::as_str", "::as_ref", "::borrow")) and rr[2]["args"]:
+                    rr = g.root_of(rr[2]["args"][0], through_named=True)
+            src = rr[2]["dest"]["l"] if rr[0] == "call" else (rr[1]["l"] if rr[0] == "place" else None)
+            if src in shown:
+                res.bad(rule, "%s # branches on a child's printed text # %s" % (q, (M.callee_name(r[2]) or "").split("::")[-1]),
+                        "%s decides what to write by testing the printed text of a child value (%s): different values get the same text and the output no longer "
+                        "reads back as the value" % (q, (M.callee_name(r[2]) or "").split("::")[-1]), g.loc(r[2].get("span")))
+    res.floor(rule, "display functions that print children", n, 1)
+    res.ok(rule, "%d display function(s): no branch on the printed text of a child" % n)
+
+
 def print_shape(P, res):
     """TUPLE-SINGLETON and PRINT-ORDER (MIR, values::Value::display):
     a one-element tuple is printed with a trailing comma (`(1,)`; without it the reader sees a parenthesised expression), and
@@ -133,6 +168,7 @@ def number_tokens_parse(sh, res, rule="NUMBER-PARSE"):
 
 def run(ctx, res):
     print_shape(ctx.P, res)
+    print_context_free(ctx.P, res)
     from .. import units as U
     U.check(ctx.P, res, "UNIT-MIX", ("parser::", "values::"), 10)
     sh = ctx.shape
